@@ -1,0 +1,116 @@
+//go:build verif
+
+package parsing
+
+// Contracts for govc (/verif). Comment-only file: no executable code, not part of the default build.
+
+/*@
+// ---- environment: the address converter and the key generator (interfaces, no bodies) ----------------------------
+// Decode is a function of the text: whether it succeeds (decOK) and the bytes it yields (decLen, decByte) depend on
+// the converter and the text only. core/pubkeyConverter (C48) proves this for the bech32 and hex converters over the
+// library model.
+spec fn decOK(c core.PubkeyConverter, s string) bool
+spec fn decLen(c core.PubkeyConverter, s string) int
+spec fn decByte(c core.PubkeyConverter, s string, k int) byte
+spec fn decodesTo(c core.PubkeyConverter, s string, b []byte) bool = len(b) == decLen(c, s) && (forall k :: 0 <= k && k < len(b) ==> b[k] == decByte(c, s, k))
+
+func (c core.PubkeyConverter) Decode(humanReadable string) (r []byte, err error)
+  ensures  decode-is-a-function-of-the-text: err == nil ==> decOK(c, humanReadable) && decodesTo(c, humanReadable, r)
+  ensures  decode-fails-on-undecodable-text: err != nil ==> !decOK(c, humanReadable)
+  assigns  nothing
+
+func (g crypto.KeyGenerator) CheckPublicKeyValid(b []byte) (err error)
+  assigns  nothing
+
+// ---- one entry -------------------------------------------------------------------------------------------------
+// an entry as the JSON decoder leaves it: every amount is present (UnmarshalJSON fills them or fails)
+spec fn entryFilled(ia *data.InitialAccount) bool = ia != nil && ia.Supply != nil && ia.Balance != nil && ia.StakingValue != nil && ia.Delegation != nil && ia.Delegation.Value != nil && allocated(ia) && allocated(ia.Supply) && allocated(ia.Balance) && allocated(ia.StakingValue) && allocated(ia.Delegation) && allocated(ia.Delegation.Value)
+
+// what the property demands of one accepted entry
+spec fn entryOK(ia *data.InitialAccount) bool = big(ia.Supply) == big(ia.Balance) + big(ia.StakingValue) + big(ia.Delegation.Value) && big(ia.Supply) > 0 && big(ia.Balance) >= 0 && big(ia.StakingValue) >= 0 && big(ia.Delegation.Value) >= 0 && !core.IsSmartContractAddress(ia.addressBytes)
+
+// the entry's address bytes are the decoding of the entry's address text
+spec fn entryDecoded(c core.PubkeyConverter, ia *data.InitialAccount) bool = decOK(c, ia.Address) && len(ia.addressBytes) == decLen(c, ia.Address)
+
+func (ap *accountsParser) checkInitialAccount(initialAccount *data.InitialAccount) (err error)
+  requires entry-decoded: entryFilled(initialAccount)
+  ensures  accepted-entry-is-consistent: err == nil ==> entryOK(initialAccount)
+  ensures  consistent-entry-is-accepted: old(entryOK(initialAccount)) ==> err == nil
+  assigns  nothing
+
+func (ap *accountsParser) parseDelegationElement(initialAccount *data.InitialAccount) (err error)
+  requires entry-decoded: entryFilled(initialAccount)
+  requires converter-set: ap.pubkeyConverter != nil
+  ensures  delegation-address-decoded: err == nil && big(initialAccount.Delegation.Value) != 0 ==> len(initialAccount.Delegation.Address) > 0 && decodesTo(ap.pubkeyConverter, initialAccount.Delegation.Address, initialAccount.Delegation.addressBytes)
+  assigns  initialAccount.Delegation.addressBytes
+
+func (ap *accountsParser) parseElement(initialAccount *data.InitialAccount) (err error)
+  requires entry-decoded: entryFilled(initialAccount)
+  requires converter-set: ap.pubkeyConverter != nil && ap.keyGenerator != nil
+  ensures  address-decoded: err == nil ==> len(initialAccount.Address) > 0 && decOK(ap.pubkeyConverter, initialAccount.Address) && decodesTo(ap.pubkeyConverter, initialAccount.Address, initialAccount.addressBytes)
+  assigns  initialAccount.addressBytes, initialAccount.Delegation.addressBytes
+@*/
+
+/*@
+// ---- the whole list ----------------------------------------------------------------------------------------------
+// entry(s, k) is s[k]; quantified clauses name list elements through it so that the bound index is a direct argument
+// of a function (the solvers instantiate on entry(s, k); with s[k] alone the index only occurs inside offset arithmetic)
+spec fn entry(s []*data.InitialAccount, k int) *data.InitialAccount
+  axiom entry(s, k) == s[k]
+
+// sumSupply(s, j): sum of the supplies of entries [0, j)
+spec fn sumSupply(s []*data.InitialAccount, j int) int
+  axiom sumSupply(s, 0) == 0
+  axiom j > 0 ==> sumSupply(s, j) == sumSupply(s, j-1) + big(entry(s, j-1).Supply)
+
+spec fn lensDecoded(c core.PubkeyConverter, s []*data.InitialAccount, n int) bool = forall k :: 0 <= k && k < n ==> entryDecoded(c, entry(s, k))
+spec fn bytesDecoded(c core.PubkeyConverter, s []*data.InitialAccount, n int) bool = forall k int, m int :: 0 <= k && k < n && 0 <= m && m < decLen(c, entry(s, k).Address) ==> entry(s, k).addressBytes[m] == decByte(c, entry(s, k).Address, m)
+spec fn textsDiffer(s []*data.InitialAccount, lo int, hi int) bool = forall i int, j int :: 0 <= i && i < lo && i < j && j < hi ==> entry(s, i).Address != entry(s, j).Address
+
+func (ap *accountsParser) checkForDuplicates() (err error)
+  requires entries-present: forall k :: 0 <= k && k < len(ap.initialAccounts) ==> entry(ap.initialAccounts, k) != nil
+  requires addresses-decoded: lensDecoded(ap.pubkeyConverter, ap.initialAccounts, len(ap.initialAccounts))
+  requires addresses-decoded-bytes: bytesDecoded(ap.pubkeyConverter, ap.initialAccounts, len(ap.initialAccounts))
+  ensures  distinct-text: err == nil ==> textsDiffer(ap.initialAccounts, len(ap.initialAccounts), len(ap.initialAccounts))
+  ensures  distinct-bytes: err == nil ==> (forall i int, j int :: 0 <= i && i < j && j < len(ap.initialAccounts) ==> !bytesEq(entry(ap.initialAccounts, i).addressBytes, entry(ap.initialAccounts, j).addressBytes))
+  // the instance of distinct-bytes for a list of two entries (gives the solvers a bounded counterexample search)
+  ensures  distinct-bytes-of-two-entries: err == nil && len(ap.initialAccounts) == 2 ==> !bytesEq(entry(ap.initialAccounts, 0).addressBytes, entry(ap.initialAccounts, 1).addressBytes)
+  assigns  nothing
+
+// (F47) once the comparison is made on AddressBytes(), replace textsDiffer in the invariants of both loops by the same
+// predicate over !bytesEq(entry(s, i).addressBytes, entry(s, j).addressBytes); distinct-bytes then follows like distinct-text
+loop 1
+  invariant 0 <= idx1 && idx1 <= len(ap.initialAccounts)
+  invariant textsDiffer(ap.initialAccounts, idx1, len(ap.initialAccounts))
+
+loop 2
+  invariant 0 <= idx1 && idx1 < len(ap.initialAccounts) && idx1 < idx2 && idx2 <= len(ap.initialAccounts)
+  invariant ia1 == entry(ap.initialAccounts, idx1)
+  invariant textsDiffer(ap.initialAccounts, idx1, len(ap.initialAccounts))
+  invariant forall j :: idx1 < j && j < idx2 ==> ia1.Address != entry(ap.initialAccounts, j).Address
+@*/
+
+/*@
+spec fn amountsAsAtEntry(ia *data.InitialAccount) bool = big(ia.Supply) == old(big(ia.Supply)) && big(ia.Balance) == old(big(ia.Balance)) && big(ia.StakingValue) == old(big(ia.StakingValue)) && big(ia.Delegation.Value) == old(big(ia.Delegation.Value))
+
+func (ap *accountsParser) process() (err error)
+  requires entries-decoded-from-json: forall k :: 0 <= k && k < len(ap.initialAccounts) ==> entryFilled(entry(ap.initialAccounts, k))
+  requires supply-set: ap.entireSupply != nil && allocated(ap.entireSupply)
+  requires converter-set: ap.pubkeyConverter != nil && ap.keyGenerator != nil
+  ensures  every-entry-consistent: err == nil ==> (forall k :: 0 <= k && k < len(ap.initialAccounts) ==> entryOK(entry(ap.initialAccounts, k)))
+  ensures  supplies-add-up: err == nil ==> sumSupply(ap.initialAccounts, len(ap.initialAccounts)) == big(ap.entireSupply)
+  ensures  addresses-decoded: err == nil ==> lensDecoded(ap.pubkeyConverter, ap.initialAccounts, len(ap.initialAccounts))
+  ensures  addresses-decoded-bytes: err == nil ==> bytesDecoded(ap.pubkeyConverter, ap.initialAccounts, len(ap.initialAccounts))
+  ensures  distinct-text: err == nil ==> textsDiffer(ap.initialAccounts, len(ap.initialAccounts), len(ap.initialAccounts))
+  ensures  distinct-bytes: err == nil ==> (forall i int, j int :: 0 <= i && i < j && j < len(ap.initialAccounts) ==> !bytesEq(entry(ap.initialAccounts, i).addressBytes, entry(ap.initialAccounts, j).addressBytes))
+  ensures  amounts-unchanged: err == nil ==> big(ap.entireSupply) == old(big(ap.entireSupply)) && (forall k :: 0 <= k && k < len(ap.initialAccounts) ==> amountsAsAtEntry(entry(ap.initialAccounts, k)))
+
+loop 1
+  invariant -1 <= rangeindex && rangeindex < len(ap.initialAccounts) || (rangeindex == -1 && len(ap.initialAccounts) == 0)
+  invariant big(totalSupply) == sumSupply(ap.initialAccounts, rangeindex + 1)
+  invariant big(ap.entireSupply) == old(big(ap.entireSupply))
+  invariant forall k :: 0 <= k && k < len(ap.initialAccounts) ==> amountsAsAtEntry(entry(ap.initialAccounts, k))
+  invariant forall k :: 0 <= k && k <= rangeindex ==> entryOK(entry(ap.initialAccounts, k))
+  invariant lensDecoded(ap.pubkeyConverter, ap.initialAccounts, rangeindex + 1)
+  invariant bytesDecoded(ap.pubkeyConverter, ap.initialAccounts, rangeindex + 1)
+@*/
